@@ -50,11 +50,13 @@ def voice_sync_burst(rng, sync=None):
 
 
 def voice_emb_burst(rng, colour_code=1, pi=0, lcss=0, emb32=None, voice=None):
-    from okdmr.dmrlib.etsi.layer2.pdu.embedded_signalling import EmbeddedSignalling
+    # the EMB word is laid out here as the standard says (CC 4, PI 1, LCSS 2, QR(16,7,6) parity 9), not by the
+    # library's EmbeddedSignalling serialiser, so that what the parser receives is valid embedded signalling
+    from bitarray.util import int2ba
+    from okdmr.dmrlib.etsi.fec.quadratic_residue_16_7_6 import QuadraticResidue1676
     from okdmr.dmrlib.utils.bits_bytes import bits_to_bytes
     v = voice if voice is not None else rbits(rng, 216)
-    e = EmbeddedSignalling(colour_code=colour_code, preemption_and_power_control_indicator=pi,
-                           link_control_start_stop=lcss).as_bits()
+    e = bitarray([int(x) for x in QuadraticResidue1676.generate(int2ba((colour_code << 3) | (pi << 2) | lcss, length=7))])
     m = emb32 if emb32 is not None else rbits(rng, 32)
     return bits_to_bytes(v[:108] + e[:8] + m + e[8:] + v[108:])
 
